@@ -293,7 +293,9 @@ func (m *gmachine) query(q string, a, b *sbom.NodeList, ev map[string]any) strin
 		e := edge(a, idx)
 		a.GetEdgeByType(e.From, e.Type)
 	case "WriteSPDX23", "WriteCDX14", "WriteCDX15":
-		return serializeQuery(q, a)
+		note, changed := serializeQuery(q, a, idx)
+		ev["docchanged"] = changed
+		return note
 	default:
 		panic("vh: unknown query " + q)
 	}
